@@ -76,6 +76,7 @@ def normalize_tree(tree: ast.Module) -> int:
     ``if a:`` whose whole body is ``if b: X`` (no else on either)                ->  ``if a and b: X``
     ``<constant> == x`` / ``<constant> != x``                                    ->  ``x == <constant>`` / ``x != <constant>``
     ``x = []; for v in it: [if c:] x.append(e)`` (also set()/add, {}/x[k] = e)    ->  ``x = [e for v in it if c]``
+    ``t = <expr>; if <test whose first operand is t>:`` with ``t`` nowhere else     ->  the test with ``<expr>`` for ``t``
 
     The expression keeps its source position, so reports still point at it.  Returns the
     number of rewrites."""
@@ -142,8 +143,47 @@ def normalize_tree(tree: ast.Module) -> int:
                         new.end_lineno, new.end_col_offset = r.end_lineno, r.end_col_offset
                         lst[k : k + 2] = [new]
                         n_rw += 1
+                    elif (
+                        isinstance(a, ast.Assign)
+                        and len(a.targets) == 1
+                        and isinstance(a.targets[0], ast.Name)
+                        and isinstance(r, ast.If)
+                        and counts.get(a.targets[0].id, 0) == 2
+                        and _first_evaluated_name(r.test) == a.targets[0].id
+                        and not any(isinstance(x, (ast.Await, ast.Yield, ast.YieldFrom, ast.NamedExpr)) for x in ast.walk(a.value))
+                    ):
+                        # ``t = <expr>; if <test starting with t>:`` with t occurring nowhere else  ->  the test with <expr> in
+                        # place of t (t is the first thing the test evaluates, so the order of evaluation is unchanged)
+                        r.test = _SubstName(a.targets[0].id, a.value).visit(r.test)
+                        counts[a.targets[0].id] = 0
+                        del lst[k]
+                        n_rw += 1
+                        continue
                     k += 1
     return n_rw
+
+
+class _SubstName(ast.NodeTransformer):
+    def __init__(self, name: str, value: ast.AST):
+        self.name, self.value = name, value
+
+    def visit_Name(self, n: ast.Name) -> ast.AST:  # noqa: N802
+        return self.value if n.id == self.name and isinstance(n.ctx, ast.Load) else n
+
+
+def _first_evaluated_name(e: ast.AST) -> str | None:
+    """The bare name a test evaluates first (``t``, ``not t``, ``t and ..``, ``t is None``, ``t == x`` ...), if any."""
+    while True:
+        if isinstance(e, ast.Name):
+            return e.id
+        if isinstance(e, ast.UnaryOp) and isinstance(e.op, ast.Not):
+            e = e.operand
+        elif isinstance(e, ast.BoolOp):
+            e = e.values[0]
+        elif isinstance(e, ast.Compare):
+            e = e.left
+        else:
+            return None
 
 
 # ---------------------------------------------------------------------------
